@@ -67,4 +67,22 @@ def handleMixedCfg (l : Line) : List Verdict :=
     pure (verdictsOf diffs viol)
   r.getD [Verdict.bad "mixedcfg"]
 
+/-- the lock entry after its request ended (`Ww.Model.Sched`: a lock is only ever touched by the step that takes it and the step that releases it; its lease
+    runs from the acquisition - `Ww.Proofs.C10.lease_is_ten_seconds`) -/
+def handleLease (l : Line) : List Verdict :=
+  let r : Option (List Verdict) := do
+    let handler ← l.get? "handler"
+    let unlock ← l.get? "unlock"
+    let sawlock ← l.bool? "sawlock"
+    let sawunlock ← l.bool? "sawunlock"
+    let lockleft ← l.bool? "lockleft"
+    let late ← l.nat? "latecmds"
+    let cmds ← l.str? "late"
+    let watch ← l.nat? "watchms"
+    let diffs := cmp s!"{handler}: took the lock" sawlock true ++ cmp s!"{handler}: released the lock" sawunlock true ++
+      cmp s!"{handler}/{unlock}: lock entry left behind" lockleft (unlock == "fault") ++ cmp s!"{handler}/{unlock}: store commands on the lock entry after the answer" late 0
+    pure (verdictsOf diffs
+      (if late > 0 then [("C10.lease_extended_after_request", s!"{handler}, unlock {unlock}: within {watch} ms AFTER the request had answered, {late} more command(s) [{cmds}] were issued on its lock entry - a lock that is touched after its holder is done can outlive its lease, and every other replica's refresh of this session waits in vain")] else []))
+  r.getD [Verdict.bad "lease"]
+
 end Ww.Driver
